@@ -74,8 +74,8 @@ PROPS = {
                         'statistical accuracy of a concrete hash function is not provable; tested only'],
     },
     'C06': {
-        'lean_modules': ['C06'],
-        'required_theorems': ['C06_perm', 'C06_dup', 'C06_depends_only_on_set', 'C06_merge_union_fresh', 'C06_merge_comm', 'C06_merge_idem',
+        'lean_modules': ['C06', 'LoopTieHLL'],
+        'required_theorems': ['tie_loop_hll_update', 'tie_loop_hll_merge', 'tie_loop_hll_merge_rejected', 'loops_hll_all_translated', 'C06_perm', 'C06_dup', 'C06_depends_only_on_set', 'C06_merge_union_fresh', 'C06_merge_comm', 'C06_merge_idem',
                               'C06_merge_then_update', 'C06_merge_mismatch'],
         'suites': ['hll', 'conc', 'redisconc'],
         'race_suites': ['conc'],
